@@ -349,8 +349,15 @@ def is_default_delegation(fa: ast.FunctionDef | ast.AsyncFunctionDef, sync_name:
     if len(body) != 1 or not isinstance(body[0], ast.Return):
         return False
     c = body[0].value
-    if not (isinstance(c, ast.Call) and isinstance(c.func, ast.Attribute) and isinstance(c.func.value, ast.Name) and c.func.value.id == "self" and c.func.attr == sync_name):
+    if isinstance(c, ast.Await):
+        c = c.value
+    # executor form:  <loop>.run_in_executor(None, <owner>.<sync>, <params…>)  ==  <owner>.<sync>(<params…>)
+    if isinstance(c, ast.Call) and isinstance(c.func, ast.Attribute) and c.func.attr == "run_in_executor" and len(c.args) >= 2 and isinstance(c.args[0], ast.Constant) and c.args[0].value is None and not c.keywords:
+        c = ast.Call(func=c.args[1], args=list(c.args[2:]), keywords=[])
+    if not (isinstance(c, ast.Call) and isinstance(c.func, ast.Attribute) and isinstance(c.func.value, ast.Name) and c.func.attr == sync_name):
         return False
+    if c.func.value.id != "self" and not c.func.value.id[:1].isupper():
+        return False  # owner is `self` or the class itself (static / class methods)
     a = fa.args
     pos = [p.arg for p in a.posonlyargs + a.args if p.arg != "self"]
     got_pos = [x.id if isinstance(x, ast.Name) else None for x in c.args if not isinstance(x, ast.Starred)]
